@@ -28,26 +28,27 @@ func pickSlab(r *rand.Rand, i int) uint32 {
 
 // ContCase configures one container-history case.
 type ContCase struct {
-	Kind      string // "array" or "map"
-	Slab      uint32
-	Ops       int
-	Prof      ValProfile
-	Mon       MonCfg
-	Hist      HistCfg
-	Phases    []Phase
-	Dig       *DigProfile
-	CommitEvery int
-	EvictEvery  int // every n-th periodic commit is followed by DropCache (0 = never)
-	ReopenEvery int // every n-th periodic commit is followed by a full reopen from the ledger (0 = never)
-	Relaxed   bool
-	Workers   int
-	Limit     uint32 // collision limit (0 = leave default)
-	SetLimit  bool
-	DrainAtEnd bool // after the phases: remove every element one by one (no bulk pop), then regrow a little
-	Temp      bool // root at the temporary address
-	Final     func(w *World, root *Node, res *CaseResult)
-	PerOp     func(w *World, root *Node) error
-	AfterCommit func(w *World, root *Node) error
+	Kind             string // "array" or "map"
+	Slab             uint32
+	Ops              int
+	Prof             ValProfile
+	Mon              MonCfg
+	Hist             HistCfg
+	Phases           []Phase
+	Dig              *DigProfile
+	CommitEvery      int
+	EvictEvery       int // every n-th periodic commit is followed by DropCache (0 = never)
+	ReopenEvery      int // every n-th periodic commit is followed by a full reopen from the ledger (0 = never)
+	Relaxed          bool
+	Workers          int
+	Limit            uint32 // collision limit (0 = leave default)
+	SetLimit         bool
+	DrainedIsOneSlab bool // C09: after DrainAtEnd the container must occupy exactly one slab and nothing else may remain
+	DrainAtEnd       bool // after the phases: remove every element one by one (no bulk pop), then regrow a little
+	Temp             bool // root at the temporary address
+	Final            func(w *World, root *Node, res *CaseResult)
+	PerOp            func(w *World, root *Node) error
+	AfterCommit      func(w *World, root *Node) error
 }
 
 func (cc *ContCase) config() map[string]any {
@@ -180,6 +181,17 @@ func runContainerCase(c *CaseCtx, cc *ContCase) (*CaseResult, *World, *Node) {
 			}
 		}
 		w.stats.Extra["drains-by-single-removals"]++
+		if cc.DrainedIsOneSlab {
+			wk := NewWalker(liveGetter(w.ps), w.ps, w.cb)
+			if e := wk.WalkRootID(rootID(root), root, root.Dig); e != nil {
+				return finish(viol("tree", "%v", e))
+			} else if wk.Stats.Slabs != 1 {
+				return finish(viol("drain-leak", "a container emptied by single removals occupies %d slabs", wk.Stats.Slabs))
+			}
+			if err := w.CheckTree(true); err != nil {
+				return finish(err)
+			}
+		}
 		for i := 0; i < 40; i++ {
 			if err := w.Step(root, PhaseGrow, &hist); err != nil {
 				return finish(err)
